@@ -163,8 +163,8 @@ func (x *Exec) enterBlock(st *State, fr *Frame, b *ssa.BasicBlock) bool {
 				prev = append(prev, g)
 			}
 		}
-		if hs := x.loopFrameHeaps[b]; len(hs) > 0 && fr.parent == nil {
-			g := x.frameGoal(st, fr, hs, declConst("frame.r", SInt))
+		if hs := x.loopFrameHeaps[b]; len(hs) > 0 {
+			g := x.frameGoal(st, topFrame(fr), hs, declConst("frame.r", SInt))
 			x.addCheck(st, fr, fmt.Sprintf("loop#%d/frame/preserve", ord), g, b.Instrs[0].Pos(), "the loop keeps the function's frame")
 		}
 		return false
@@ -261,10 +261,13 @@ func (x *Exec) enterBlock(st *State, fr *Frame, b *ssa.BasicBlock) bool {
 		}
 		wholeHeaps = append(wholeHeaps, n)
 	}
-	if fr.parent == nil && fr.contract != nil && !fr.contract.ModAll && len(wholeHeaps) > 0 {
+	// the loop-frame invariant refers to the contract of the function being verified, also for loops of
+	// callees that are executed in place
+	tf := topFrame(fr)
+	if tf.contract != nil && !tf.contract.ModAll && len(wholeHeaps) > 0 {
 		if x.dry == 0 {
 			x.loopFrameHeaps[b] = wholeHeaps
-			g := x.frameGoal(st, fr, wholeHeaps, declConst("frame.r", SInt))
+			g := x.frameGoal(st, tf, wholeHeaps, declConst("frame.r", SInt))
 			x.addCheck(st, fr, fmt.Sprintf("loop#%d/frame/init", ord), g, b.Instrs[0].Pos(), "the function's frame holds at loop entry")
 		}
 	}
@@ -277,19 +280,21 @@ func (x *Exec) enterBlock(st *State, fr *Frame, b *ssa.BasicBlock) bool {
 		st.ev = &Event{Kind: EvAssume, Text: "true", Cut: true, prev: st.ev, n: n}
 	}
 	x.havocRec(st, rec, stable)
-	if fr.parent == nil && fr.contract != nil && !fr.contract.ModAll && len(wholeHeaps) > 0 {
+	if tf.contract != nil && !tf.contract.ModAll && len(wholeHeaps) > 0 {
 		// one quantified frame fact per heap, triggered only by a read of that heap's new version
 		q := T{quoteSym("q frame r"), SInt}
 		for _, hn := range wholeHeaps {
-			g := x.frameGoal(st, fr, []string{hn}, q)
+			g := x.frameGoal(st, tf, []string{hn}, q)
 			if g.S == "true" {
 				continue
 			}
+			curKeep = true
 			if cur, ok := st.heaps[hn]; ok {
 				st.assume(T{fmt.Sprintf("(forall ((%s Int)) (! %s :pattern ((select %s %s))))", q.S, g.S, cur.S, q.S), SBool})
 			} else {
 				st.assume(T{fmt.Sprintf("(forall ((%s Int)) %s)", q.S, g.S), SBool})
 			}
+			curKeep = false
 		}
 	}
 	// typing facts and structural facts
